@@ -14,6 +14,11 @@ ALLOWED_AXIOMS = {"propext", "Classical.choice", "Quot.sound"}
 FORBIDDEN = re.compile(r"\b(sorry|admit|native_decide|bv_decide|implemented_by)\b|^\s*axiom\s|\bunsafe\s|maxHeartbeats\s+0\b")
 
 
+class TieBroken(Exception):
+    """the implementation's trace cannot even be written in the model's vocabulary (e.g. an amount that is not a number of the lattice where the
+    unchanged code only produces such numbers): the correspondence no longer checks"""
+
+
 def sh(cmd, cwd=None, timeout=3600, env=None):
     e = dict(os.environ)
     if env:
